@@ -752,6 +752,10 @@ def replay_batch(b, items, timeout_s, budget=8):
         if not cs and gen.get(h) and all(not values_from_test(t["code"]) for t in gen[h]):
             # harness without symbolic input: every generated test replays the same deterministic run
             cs = [dict(gen[h][0], description=sorted(want)[0])]
+        if not cs and gen.get(h):
+            # Kani sometimes prints tests only for the covers. Their inputs are still inputs of this
+            # harness: inject them all and keep the one that natively fails with the failed check's message.
+            cs = [{"alts": gen[h], "want": sorted(want), "description": sorted(want)[0], "name": None, "code": ""}]
         if not cs:
             results.append({"reproduced": False, "why": "kani produced no concrete test for the failed check",
                             "kept": keep_trace(b, h, os.path.join(b.root, "replay-" + h)), "harness": h, "group": gn})
@@ -766,7 +770,8 @@ def replay_batch(b, items, timeout_s, budget=8):
             with open(hf) as f:
                 originals[hf] = f.read()
         with open(hf, "a") as f:
-            f.write("\n" + t["code"] + "\n")
+            for tt in (t.get("alts") or [t]):
+                f.write("\n" + tt["code"] + "\n")
     ptd = os.path.join(b.root, "target-playback")
     seed_target(ptd, "playback-cli" if b.variant == "cli" else "playback")
     dev, devc, dev_raw, dev_st = run_native_tests(b.ws, b.pkg, ptd, False, os.path.join(b.root, "native-dev.log"), b.is_bin)
@@ -777,7 +782,21 @@ def replay_batch(b, items, timeout_s, budget=8):
     for hf, src in originals.items():
         with open(hf, "w") as f:
             f.write(src)
-    for h, (gn, t) in chosen.items():
+    for h, (gn, t) in list(chosen.items()):
+        if t.get("alts"):
+            pick = None
+            for tt in t["alts"]:
+                out_txt = devc.get(tt["name"], "") + relc.get(tt["name"], "")
+                if (dev.get(tt["name"]) == "failed" or rel.get(tt["name"]) == "failed") and \
+                        any(w.strip('"') in norm(out_txt) for w in t["want"]):
+                    pick = tt
+                    break
+            if pick is None:
+                results.append({"reproduced": False, "why": "none of kani's generated inputs fails natively with the failed check's message",
+                                "kept": keep_trace(b, h, os.path.join(b.root, "replay-" + h)), "harness": h, "group": gn})
+                continue
+            t = dict(pick, description=t["description"])
+            chosen[h] = (gn, t)
         d = dev.get(t["name"], "error")
         r = rel.get(t["name"], "error")
         chunk = devc.get(t["name"], "") if d == "failed" else relc.get(t["name"], "")
@@ -832,12 +851,15 @@ def confirm_on_real_map(b, chosen):
     files = {}
     for gn in gns:
         files[gn] = inject_group(ws, gn)
+    flat = []
     for h, (gn, t) in chosen.items():
-        with open(files[gn], "a") as f:
-            f.write("\n" + t["code"] + "\n")
+        for tt in (t.get("alts") or [t]):
+            flat.append(tt)
+            with open(files[gn], "a") as f:
+                f.write("\n" + tt["code"] + "\n")
     ptd = os.path.join(root, "target-playback")
     seed_target(ptd, "playback")
-    stats = {t["name"]: {"runs": 0, "failed": 0} for (_, t) in chosen.values()}
+    stats = {tt["name"]: {"runs": 0, "failed": 0} for tt in flat}
     logf = os.path.join(b.root, "real-map.log")
     pending = set(stats)
     for k in range(REAL_MAP_RUNS):
